@@ -494,16 +494,21 @@ def c14_tract(cfg, ops):
 
 # ------------------------------------------------------------------ C15
 @replay('c15_history')
-def c15_history(pi, ops):
-    from props.c15_ref import observe, apply_op, OPS
-    base = observe(pi)           # fresh interpreter, empty history
+def c15_history(ops, pi=None):
+    from props.c15_ref import observe, apply_op, OPS, N_PROBES
+    base = {p: observe(p) for p in range(N_PROBES)}           # fresh interpreter, empty history
     for name in ops:
-        apply_op(OPS.index(name), pi)
-    got = observe(pi)
-    if got == base:
-        return False, 'same as the fresh-interpreter baseline'
-    diff = [(i, x, y) for i, (x, y) in enumerate(zip(got, base)) if x != y]
-    return True, f'probe #{pi} after {ops}: {str(diff)[:900]}'
+        if name in ('mutate_exports', 'parse_same_under_other_defaults'):
+            for p in range(N_PROBES):
+                apply_op(OPS.index(name), p)
+        else:
+            apply_op(OPS.index(name), 0)
+    diffs = []
+    for p in range(N_PROBES):
+        got = observe(p)
+        if got != base[p]:
+            diffs.append((p, [(i, x, y) for i, (x, y) in enumerate(zip(got, base[p])) if x != y][:2]))
+    return bool(diffs), f'after {ops}: probes that differ from the fresh-interpreter baseline: {str(diffs)[:900]}'
 
 
 # ------------------------------------------------------------------ C02
@@ -913,3 +918,59 @@ def c07_bare(text, clean, expect, q):
     import pytrs
     t = pytrs.Tract(text, parse_qq=True, config='clean_qq' if clean else '')
     return ((q + '¼') in t.pp_desc) != expect, f'Tract({text!r}, clean_qq={clean}).pp_desc = {t.pp_desc!r}'
+
+
+# ------------------------------------------------------------------ C06
+@replay('c06_api')
+def c06_api(idx, seps, cfg):
+    from props.c06_ref import verdict
+    v = verdict(idx, seps, cfg)
+    return v is not None, f'{v}'
+
+
+@replay('c06_text')
+def c06_text(text):
+    import pytrs
+    t = pytrs.Tract(text, parse_qq=True)
+    parts = [p for p in text.replace(';;', '').replace(';', ',').split(',') if p.strip()]
+    exp_l, exp_q = [], []
+    for p in parts:
+        s = pytrs.Tract(p.strip(), parse_qq=True)
+        exp_l += s.lots
+        exp_q += s.qqs
+    return t.lots != exp_l or t.qqs != exp_q, f'Tract({text!r}): lots {t.lots} qqs {t.qqs}; element-wise {exp_l} {exp_q}'
+
+
+# ------------------------------------------------------------------ C01
+@replay('c01_text')
+def c01_text(text, expected, layout):
+    import pytrs
+    d = pytrs.PLSSDesc(text)
+    got = [(t.trs, t.desc) for t in d.tracts]
+    exp = [tuple(e) for e in expected]
+    if got != exp or d.e_flags or d.current_layout != layout:
+        return True, f'{text!r}: tracts {got} (expected {exp}), layout {d.current_layout} (written {layout}), e_flags {d.e_flags}'
+    d2 = pytrs.PLSSDesc(d.pretty_desc())
+    got2 = [(t.trs, t.desc) for t in d2.tracts]
+    return got2 != got, f'pretty_desc round trip: {got2} vs {got}'
+
+
+@replay('c01_sections')
+def c01_sections(text):
+    import re
+    import pytrs
+    m = re.search(r'(?:Sec(?:tion)?s?\.?|§)\s*(\d+)(?:(\s*-\s*|\s+through\s+)(\d+)|(?:,\s*|\s+and\s+|\s*&\s*)(\d+))?\s*:?', text)
+    nums = []
+    if m:
+        a = int(m.group(1))
+        if m.group(3):
+            b = int(m.group(3))
+            step = 1 if b >= a else -1
+            nums = list(range(a, b + step, step))
+        elif m.group(4):
+            nums = [a, int(m.group(4))]
+        else:
+            nums = [a]
+    want = [str(x).rjust(2, '0') for x in nums]
+    got = pytrs.find_sec(text)
+    return got != want, f'find_sec({text!r}) = {got}, written sections {want}'
